@@ -18,7 +18,7 @@ CONFIG = 'crates/anemo/src/config.rs'
 TYPES = P.TYPES
 TIMEOUT = 600
 # vacuity guard: cover points that must be reached: history: an add onto an existing entry; ticks: a dial, a re-dial after 1 failure, after 2
-COVER = {'active_peers_history': [0, 1], 'who_is_dialed': [0], 'background_dialing_ticks': [0, 1, 3, 4], 'dial_races_inbound_connect': [0, 3, 5], 'closed_connection_bookkeeping': [0, 1, 2], 'mutual_dial_through_manager': [0, 1], 'known_peers_change_during_dial': [0, 6, 7]}
+COVER = {'active_peers_history': [0, 1, 2], 'who_is_dialed': [0], 'background_dialing_ticks': [0, 1, 3, 4], 'dial_races_inbound_connect': [0, 3, 5], 'closed_connection_bookkeeping': [0, 1, 2], 'mutual_dial_through_manager': [0, 1], 'known_peers_change_during_dial': [0, 6, 7]}
 
 PRELUDE = r'''// GENERATED on every run by /verif/vc from /repo's working tree -- do not edit
 #![allow(dead_code, unused, non_upper_case_globals, non_camel_case_types, static_mut_refs)]
@@ -282,7 +282,7 @@ pub mod harness {
         }
         Some((a, b))
     }
-    pub fn active_peers_history(ch: &mut Chooser) { // @EOBL [C04,C05,C06] @BOUNDED every history of 4 operations (add / remove / remove_with_stable_id / subscribe) over 2 peers and 4 connections of either origin: after every step the listing has no duplicates, holds no closed connection, equals the strict replay of the event log (events alternate), a subscription snapshot plus later events reproduces the listing, every closed-and-unlisted connection is really closed, and each wrapper call is exactly one lock acquisition
+    pub fn active_peers_history(ch: &mut Chooser) { // @EOBL [C04,C05,C06,C09] @BOUNDED every history of 4 operations (add / remove / remove_with_stable_id / subscribe / the remote end closing a connection before any handler notices) over 2 peers and 4 connections of either origin: after every step the listing (both the map and what peers() answers) has no duplicates, holds no closed connection, equals the strict replay of the event log (events alternate), a subscription snapshot plus later events reproduces the listing, every closed-and-unlisted connection is really closed, and each wrapper call is exactly one lock acquisition
         let ap = ActivePeers::new(8);
         let conns = [conn(0, P1, any_origin(ch)), conn(1, P1, any_origin(ch)), conn(2, P2, any_origin(ch)), conn(3, P1, any_origin(ch))];
         let mut added = [false; 4];
@@ -290,9 +290,12 @@ pub mod harness {
         let mut step = 0;
         while step < 4 {
             let before = ap.0.acquisitions.get();
-            let op = ch.below(4);
+            let op = ch.below(5);
             let k = ch.below(4) as usize;
-            if op == 0 {
+            if op == 4 {
+                // the other side (or the transport) ends connection k: quinn marks it closed, no handler has run yet
+                if added[k] { unsafe { REMOTE_CLOSED[conns[k].sid] = true; } cover(2); }
+            } else if op == 0 {
                 if !added[k] { added[k] = true; if ap.0.cell.borrow().connections.contains_key(&conns[k].peer) { cover(0); } let _ = ap.add(&ME, conns[k].clone()); assert!(ap.0.acquisitions.get() == before + 1); }
             } else if op == 1 {
                 let p = if ch.any_bool() { P1 } else { P2 };
@@ -318,12 +321,16 @@ pub mod harness {
                 snapshot = Some((rx.start, peers));
             }
             // ---- invariants after every step ----
+            // the PUBLIC listing (what peers() answers right now) is what the change log has to reproduce, at every instant
+            let listing = ap.peers();
             let inner = ap.0.cell.borrow();
             let listed1 = inner.connections.contains_key(&P1);
             let listed2 = inner.connections.contains_key(&P2);
             assert!(inner.connections.len() == (listed1 as usize) + (listed2 as usize));           // no duplicates
             let r = replay(event_len());
             assert!(r == Some((listed1, listed2)));                                              // exact change log, strictly alternating
+            assert!(listing.len() == (listing.contains(&P1) as usize) + (listing.contains(&P2) as usize), "the listing names a peer twice");
+            assert!(r == Some((listing.contains(&P1), listing.contains(&P2))), "the listing peers() returns differs from what the event stream says (snapshot + events must reproduce the CURRENT listing at every instant)");
             let mut i = 0;
             while i < 4 {
                 let stored = match inner.connections.get(&conns[i].peer) { Some(c) => c.sid == conns[i].sid, None => false };
